@@ -29,7 +29,7 @@ def correspondence(ctx):
     for name in S.ALL:
         rcls = S.rclass(name) or B._generic_range_for(S.vclass(name))
         rng = ctx.rng("c10", name)
-        bench = B.Bench(name, rng, size=16)
+        bench = B.Bench(name, rng, size=16, need_hash=False, respell=0.5)
         B.probe_unrankable(ctx, "C10", bench)
         stream = "normalize:" + name
         if not bench.ok(11):
